@@ -173,7 +173,9 @@ func c16Carousel(c *Ctx) {
 			bad = append(bad, "draw index is "+shortVal(ik))
 		}
 		// sorted before the draw
-		sorted := afterOf(fl.At(u), func(s string) bool { return strings.HasPrefix(s, "slices.Sort[") && strings.Contains(s, fl.K.Key(ia.X)) })
+		sorted := afterOf(fl.At(u), func(s string) bool {
+			return strings.HasPrefix(s, "slices.Sort[") && strings.Contains(s, fl.K.Key(ia.X))
+		})
 		if !sorted {
 			bad = append(bad, "candidates are not sorted before the draw at "+p.InstrPos(u))
 		}
@@ -206,7 +208,9 @@ func c16Carousel(c *Ctx) {
 				nApp++
 				var elem string
 				storedInto(sliceBase(c2.Call.Args[1]), func(e ssa.Value) bool { elem = fcl.K.Key(e); return false })
-				if elem != "p0" || !falseOf(fcl.At(in2), func(k string) bool { return strings.HasPrefix(k, "slices.Contains[") && strings.Contains(k, "lastAuthors, p0)") }) {
+				if elem != "p0" || !falseOf(fcl.At(in2), func(k string) bool {
+					return strings.HasPrefix(k, "slices.Contains[") && strings.Contains(k, "lastAuthors, p0)")
+				}) {
 					gated = false
 				}
 			}
@@ -229,7 +233,9 @@ func c16Carousel(c *Ctx) {
 			var elem string
 			storedInto(sliceBase(call.Call.Args[1]), func(e ssa.Value) bool { elem = fl.K.Key(e); return false })
 			if strings.HasPrefix(elem, "(*hs.Block).Proposer(phi@") {
-				if hasCmp(fl.At(in), "<", func(k string) bool { return strings.HasPrefix(k, "phi@") }, func(k string) bool { return strings.HasPrefix(k, "hs.NumFaulty((*hs/core.RuntimeConfig).ReplicaCount(") }) {
+				if hasCmp(fl.At(in), "<", func(k string) bool { return strings.HasPrefix(k, "phi@") }, func(k string) bool {
+					return strings.HasPrefix(k, "hs.NumFaulty((*hs/core.RuntimeConfig).ReplicaCount(")
+				}) {
 					okAuth = true
 				}
 			}
